@@ -361,7 +361,7 @@ func TestCheck(t *testing.T) {
 	r := vk.New("C15")
 	defer r.Done()
 	p := makePlan(r.Env, os.Getenv("VERIF_PART"))
-	r.Note("timing_rule", "contact at virtual T is refuted iff T < previous contact + max(5 min, smallest interval validly announced in the replies to that contact); intervals > 2^33 s excluded")
+	r.Note("timing_rule", "contact at virtual T is refuted iff T < previous contact + max(5 min, smallest interval validly announced in the replies to that contact, or, when every reply was a bencoded failure with a valid \"retry in\", the smallest of those retry times, \"never\" counted as one day); intervals > 2^33 s excluded")
 	r.Note("alloc_bound", fmt.Sprintf("bytes allocated in the worker process during one HTTP Announce (runtime.MemStats.TotalAlloc delta) <= %d*(reply bytes of both families) + %d", allocMul, allocC0))
 	r.Note("dual_family_host", "v46.test answered A=127.0.0.1 AAAA=::1 by an in-process DNS answerer (net.DefaultResolver.Dial)")
 	w := &workerProc{}
@@ -2211,7 +2211,7 @@ func genSched(rng *rand.Rand, k int, race bool) spec {
 			c.Kind = "failure"
 		case (x == 7 || x >= 10) && s.Proto == "http":
 			c.Kind = "failure-retry"
-			c.Retry = vk.Pick(rng, []string{"never", "1", "2", "4", "5", "6", "20", "0", "-1", "x"})
+			c.Retry = vk.Pick(rng, []string{"never", "1", "2", "4", "5", "6", "20", "0", "-1", "x", "16", "45", "120", "never"})
 		case x == 8 && s.Proto == "http":
 			c.Kind = "status"
 		case x == 9 && s.Proto == "http":
@@ -2259,6 +2259,41 @@ type contact struct {
 	Fam   int    `json:"fam"`
 	Kind  string `json:"reply"`
 	Valid int64  `json:"valid_interval"` // >0 when the reply validly announced an interval
+	Retry int64  `json:"retry_s"`        // >0 when the reply is a failure that validly says when to retry
+}
+
+// retryOf: the seconds a well-formed failure reply asks the client to stay away ("retry in": minutes, or
+// "never", which is judged as one day only: far below what it says, far above any retry the client may invent).
+func retryOf(g *genReply) int64 {
+	if g == nil || g.Status != 200 || !deliveredFully(g.Delivery) {
+		return 0
+	}
+	v, n, err := refwire.Bdec(g.Body, true)
+	d, ok := v.(*refwire.Dict)
+	if err != nil || !ok || n != len(g.Body) {
+		return 0
+	}
+	if fr, ok := d.Bytes("failure reason"); !ok || len(fr) == 0 {
+		return 0
+	}
+	ri, ok := d.Bytes("retry in")
+	if !ok {
+		return 0
+	}
+	if string(ri) == "never" {
+		return 86400
+	}
+	if len(ri) == 0 || len(ri) > 5 {
+		return 0
+	}
+	m := int64(0)
+	for _, ch := range ri {
+		if ch < '0' || ch > '9' {
+			return 0
+		}
+		m = m*10 + int64(ch-'0')
+	}
+	return m * 60
 }
 
 type stepLog struct {
@@ -2294,7 +2329,7 @@ func (s *schedSpec) run(t *testing.T, res *result) {
 			defer srvBoth.mu.Unlock()
 			var out []contact
 			for _, l := range srvBoth.log {
-				out = append(out, contact{VT: l.VT, Fam: l.Fam, Kind: l.Class, Valid: judgeReply(l.reply).validIval})
+				out = append(out, contact{VT: l.VT, Fam: l.Fam, Kind: l.Class, Valid: judgeReply(l.reply).validIval, Retry: retryOf(l.reply)})
 			}
 			return out
 		}
@@ -2480,6 +2515,7 @@ func (s *schedSpec) run(t *testing.T, res *result) {
 		vt     int64
 		perFam [2]int
 		valid  []int64
+		retry  []int64
 		kinds  []string
 	}
 	var insts []*inst
@@ -2493,13 +2529,17 @@ func (s *schedSpec) run(t *testing.T, res *result) {
 		if c.Valid > 0 {
 			in.valid = append(in.valid, c.Valid)
 		}
+		if c.Retry > 0 {
+			in.retry = append(in.retry, c.Retry)
+		}
 	}
 	boundary := 0
 	for k, in := range insts {
 		lastClass := func(p *inst) string {
 			if len(p.valid) == 0 {
-				ks := append([]string(nil), p.kinds...)
-				sort.Strings(ks)
+				if len(p.retry) > 0 && len(p.retry) == len(p.kinds) {
+					return "failure-retry-in"
+				}
 				return "no-valid-interval"
 			}
 			m := p.valid[0]
@@ -2541,6 +2581,20 @@ func (s *schedSpec) run(t *testing.T, res *result) {
 				bound = m
 			}
 		}
+		if len(p.valid) == 0 && len(p.retry) > 0 && len(p.retry) == len(p.kinds) {
+			// every reply to the previous contact was a failure naming a retry time: that is the interval
+			// the tracker announced (the smallest, if the two address families disagree)
+			m := p.retry[0]
+			for _, v := range p.retry {
+				if v < m {
+					m = v
+				}
+			}
+			if m > bound {
+				bound = m
+			}
+			res.count("sched_gaps_after_retry_in", 1)
+		}
 		if excluded {
 			res.count("sched_gaps_excluded_huge_interval", 1)
 			continue
@@ -2548,7 +2602,7 @@ func (s *schedSpec) run(t *testing.T, res *result) {
 		res.count("sched_gaps_judged", 1)
 		elapsed := in.vt - p.vt // ns
 		if float64(elapsed) < float64(bound)*1e9 {
-			res.violation("early-contact", "early-contact "+s.Proto+" last="+lastClass(p), fmt.Sprintf("contact %s after the previous one, which announced valid intervals %v s (replies %v): earlier than max(5 min, interval) = %d s", time.Duration(elapsed), p.valid, p.kinds, bound), rep)
+			res.violation("early-contact", "early-contact "+s.Proto+" last="+lastClass(p), fmt.Sprintf("contact %s after the previous one, which announced valid intervals %v s / retry times %v s (replies %v): earlier than max(5 min, interval) = %d s", time.Duration(elapsed), p.valid, p.retry, p.kinds, bound), rep)
 			break
 		}
 		if float64(elapsed) < float64(bound)*1e9+2e9+float64(10*time.Minute) {
